@@ -678,3 +678,149 @@ Section Member.
     - rewrite <- HU. rewrite Hdata, (xs_concat_split bodies j _ Hb), Hbody, !app_length in Hfuel. lia.
   Qed.
 End Member.
+
+(* =================================================================================================
+   6. Statements about the whole layout of a document *)
+
+Definition xs_out (d : doc) : list N := xs_write_doc wm_unparse_string wm_unparse_name d.
+
+Lemma xs_out_layout : forall d, xs_eligible d <> [] ->
+  xs_out d = xs_l_hdr (xs_L d) ++ xs_l_bodies (xs_L d)
+             ++ xs_xref_object wm_unparse_string wm_unparse_name d (xs_L d)
+             ++ xs_s_startxref ++ dec_of_N (xs_l_xref_off (xs_L d)) ++ xs_s_eof.
+Proof. intros d H. unfold xs_out, xs_write_doc. destruct (xs_eligible d); [congruence | reflexivity]. Qed.
+
+(* /W widths are adequate for every entry that is written, and least: one byte less could not hold the largest of
+   the xref stream's own offset (which is written as the last entry) and its number, resp. the largest index;
+   a one-member stream gets an index field of width 0. *)
+Lemma xs_widths_adequate_least_lemma : forall d,
+  xs_l_xref_off (xs_L d) < 2 ^ 63 -> xs_l_xref_id (xs_L d) < 2 ^ 63 ->
+  let L := xs_L d in
+  Forall (xs_fits (N.to_nat (xs_l_f1 L)) (N.to_nat (xs_l_f2 L))) (xs_l_entries L)
+  /\ In (XsOff (xs_l_xref_off L)) (xs_l_entries L)
+  /\ (0 < xs_l_f1 L -> 256 ^ (xs_l_f1 L - 1) <= N.max (xs_l_xref_off L) (xs_l_xref_id L))
+  /\ (0 < xs_l_f2 L -> 256 ^ (xs_l_f2 L - 1) <= xs_max_index (xs_l_plan L))
+  /\ xs_l_f2 L <= 1.
+Proof.
+  intros d Hoff Hid L. unfold L. split.
+  { rewrite xs_L_eq in Hoff, Hid. cbn [xs_l_xref_off xs_l_xref_id] in Hoff, Hid. apply xs_entries_fit; assumption. }
+  rewrite xs_L_eq in *. cbn [xs_l_xref_off xs_l_xref_id xs_l_f1 xs_l_f2 xs_l_entries xs_l_plan] in *.
+  set (off := snd (xs_E d)) in *. set (id := xs_next (xs_Q d)) in *.
+  split; [right; apply in_or_app; right; left; reflexivity|].
+  split; [| split].
+  - unfold f1_size. rewrite N.add_0_r. intros Hpos.
+    destruct (bytes_needed_spec_lemma off Hoff) as [_ Ho]. destruct (bytes_needed_spec_lemma id Hid) as [_ Hi].
+    assert (Z0 : bytes_needed 0 = 0) by reflexivity.
+    destruct (N.max_spec (bytes_needed off) (bytes_needed id)) as [[Hlt E] | [Hle E]]; rewrite E in *.
+    + assert (0 < id) by (destruct (N.eq_dec id 0) as [E0|]; [rewrite E0, Z0 in Hpos; lia | lia]).
+      specialize (Hi H). lia.
+    + assert (0 < off) by (destruct (N.eq_dec off 0) as [E0|]; [rewrite E0, Z0 in Hpos; lia | lia]).
+      specialize (Ho H). lia.
+  - intros Hpos. pose proof (xs_max_index_le_99 d) as H99.
+    assert (Hm : xs_max_index (xs_P d) < 2 ^ 63) by (apply N.le_lt_trans with 99; [exact H99 | reflexivity]).
+    destruct (bytes_needed_spec_lemma _ Hm) as [_ Hs]. apply Hs.
+    destruct (N.eq_dec (xs_max_index (xs_P d)) 0) as [E0|]; [rewrite E0 in Hpos; cbn in Hpos; lia | lia].
+  - pose proof (xs_max_index_le_99 d) as H99.
+    apply (bytes_needed_mono_lemma _ 99 H99). reflexivity.
+Qed.
+
+Lemma xs_numbered_nth : forall es num j,
+  nth_error (xs_numbered num es) j = option_map (fun e => (num + N.of_nat j, xs_to_xentry e)) (nth_error es j).
+Proof.
+  induction es as [|e es IH]; intros num j; destruct j; cbn [xs_numbered nth_error option_map]; try reflexivity.
+  - rewrite N.add_0_r. reflexivity.
+  - rewrite IH. destruct (nth_error es j); cbn [option_map]; [f_equal; f_equal; lia | reflexivity].
+Qed.
+
+Lemma xs_numbered_gen0 : forall es num n off g, In (n, XInUse off g) (xs_numbered num es) -> g = 0.
+Proof.
+  induction es as [|e es IH]; intros num n off g H; [contradiction|].
+  cbn [xs_numbered In] in H. destruct H as [H | H]; [| apply (IH _ _ _ _ H)].
+  destruct e; cbn [xs_to_xentry] in H; try discriminate. injection H as _ _ <-. reflexivity.
+Qed.
+
+(* The number printed as /Size is the number of entries of the cross-reference stream; the entries are numbered
+   0, 1, ..., Size - 1 without gap (highest object number + 1 = /Size: the highest is the xref stream itself, whose
+   entry holds the offset that startxref names); entry 0 is the free entry; every in-use entry carries generation 0. *)
+Lemma xs_size_and_generation_lemma : forall d,
+  let L := xs_L d in
+  let ents := xs_numbered 0 (xs_l_entries L) in
+  length ents = N.to_nat (xs_l_xref_id L + 1)
+  /\ (forall j n e, nth_error ents j = Some (n, e) -> n = N.of_nat j)
+  /\ nth_error ents 0 = Some (0, XFree 0 0)
+  /\ nth_error ents (N.to_nat (xs_l_xref_id L)) = Some (xs_l_xref_id L, XInUse (xs_l_xref_off L) 0)
+  /\ (forall n off g, In (n, XInUse off g) ents -> g = 0).
+Proof.
+  intros d L ents. unfold ents, L. split; [| split; [| split; [| split]]].
+  - rewrite <- xs_entries_length. generalize 0. induction (xs_l_entries (xs_L d)) as [|e es IH]; intros num; [reflexivity|].
+    cbn [xs_numbered length]. rewrite IH. reflexivity.
+  - intros j n e H. rewrite xs_numbered_nth in H. destruct (nth_error (xs_l_entries (xs_L d)) j); cbn [option_map] in H; [| discriminate].
+    injection H as <- _. lia.
+  - rewrite xs_L_eq. reflexivity.
+  - rewrite xs_numbered_nth. rewrite xs_L_eq. cbn [xs_l_entries xs_l_xref_id xs_l_xref_off].
+    set (M := map (fun j => xs_lookup_ent (snd (fst (xs_E d))) (N.of_nat j)) (seq 1 (N.to_nat (xs_next (xs_Q d)) - 1))).
+    assert (HM : length (XsFree :: M) = N.to_nat (xs_next (xs_Q d))).
+    { cbn [length]. unfold M. rewrite map_length, seq_length. destruct (xs_Q_inv d) as [H1 _]. lia. }
+    change (XsFree :: M ++ [XsOff (snd (xs_E d))]) with ((XsFree :: M) ++ [XsOff (snd (xs_E d))]).
+    rewrite nth_error_app2 by lia. rewrite HM, Nat.sub_diag. cbn [nth_error option_map xs_to_xentry].
+    rewrite N2Nat.id. reflexivity.
+  - intros n off g. apply xs_numbered_gen0.
+Qed.
+
+(* Every member of every object stream of the modelled output: the header pair at its index parses to
+   (first member's number + index, relative offset), and the strict reader's object parser, applied as read_strict
+   applies it (at /First + offset, over the extent up to the next member), returns exactly the value that was written,
+   references renumbered. Hypotheses: the value is well-formed and the references it prints have been numbered. *)
+Lemma xs_objstm_member_parses_lemma : forall d k j m fuel,
+  let objs := d_objects d in
+  let ms := xs_members (xs_l_plan (xs_L d)) k in
+  let data := xs_ostm_data wm_unparse_string wm_unparse_name objs (xs_l_plan (xs_L d)) (xs_l_ren (xs_L d)) k in
+  let first := xs_ostm_first wm_unparse_string wm_unparse_name objs (xs_l_plan (xs_L d)) (xs_l_ren (xs_L d)) k in
+  let v := i_val (xs_lookup objs m) in
+  nth_error ms j = Some m -> wf_wobj v -> (forall x, In x (refs_of objs v) -> 0 < xs_l_ren (xs_L d) x) ->
+  (length data < fuel)%nat ->
+  exists pairs ooff,
+    objstm_pairs (length ms) data [] = Some pairs
+    /\ length pairs = length ms
+    /\ nth_error pairs j = Some (xs_l_ren (xs_L d) (hd 0 ms) + N.of_nat j, ooff)
+    /\ let extent := match nth_error pairs (S j) with
+                     | Some (_, noff) => if ooff <? noff then N.to_nat (noff - ooff) else length data
+                     | None => length data
+                     end in
+       parse_obj fuel (firstn extent (skipn (N.to_nat (first + ooff)) data)) = Some (to_pobj objs (xs_l_ren (xs_L d)) v, [10]).
+Proof.
+  intros d k j m fuel. rewrite xs_L_eq. cbn [xs_l_plan xs_l_ren]. apply xs_member_parses.
+Qed.
+
+(* Every entry of the modelled cross-reference stream names its object: a type-1 entry (n, off) is the offset at which
+   the output holds "n 0 obj" (generation 0); a type-2 entry (n, stm, idx) says that n is the new number of the idx-th
+   member of the object stream whose own number is stm and which is written as an uncompressed object. *)
+Lemma xs_entry_names_object_lemma : forall d, xs_eligible d <> [] ->
+  let L := xs_L d in
+  (forall n off, In (n, XsOff off) (xs_l_table L) -> exists rest, at_off (xs_out d) off = obj_header n ++ rest)
+  /\ (exists rest, at_off (xs_out d) (xs_l_xref_off L) = obj_header (xs_l_xref_id L) ++ rest)
+  /\ (forall n stm idx, In (n, XsIn stm idx) (xs_l_table L) ->
+        exists k m, In (XsStm k) (xs_l_items L) /\ stm = xs_l_sren L k
+                    /\ nth_error (xs_members (xs_l_plan L) k) (N.to_nat idx) = Some m /\ n = xs_l_ren L m).
+Proof.
+  intros d Hel L. unfold L. rewrite (xs_out_layout d Hel). rewrite xs_L_eq.
+  cbn [xs_l_table xs_l_hdr xs_l_bodies xs_l_xref_off xs_l_xref_id xs_l_items xs_l_sren xs_l_plan xs_l_ren].
+  split; [| split].
+  - intros n off H. unfold xs_E in *. pose proof H as H0. apply xs_emit_off in H. destruct H as [pre [it [post [H1 [H2 H3]]]]].
+    rewrite xs_emit_bytes, H1, map_app, concat_app. cbn [map concat].
+    set (c := xs_chunk wm_unparse_string wm_unparse_name (d_objects d) (xs_P d) (xs_renf d) (xs_srenf d)) in *.
+    assert (Hc : exists r, c it = obj_header n ++ r).
+    { subst n. destruct it as [id | k]; unfold c; cbn [xs_chunk].
+      - unfold emit_object. eexists. reflexivity.
+      - unfold xs_ostm_object. eexists. reflexivity. }
+    destruct Hc as [r Hc]. rewrite Hc. unfold at_off. rewrite H2.
+    replace (N.to_nat (N.of_nat (length (xs_hdr d)) + N.of_nat (length (concat (map c pre)))))
+      with (length (xs_hdr d ++ concat (map c pre))) by (rewrite app_length; lia).
+    eexists. rewrite <- !app_assoc. rewrite (app_assoc (xs_hdr d)). rewrite xs_skipn_exact. reflexivity.
+  - unfold xs_E. rewrite xs_emit_end. unfold at_off.
+    set (b := fst (fst (xs_emit wm_unparse_string wm_unparse_name (d_objects d) (xs_P d) (xs_renf d) (xs_srenf d) (xs_items d) (N.of_nat (length (xs_hdr d)))))).
+    replace (N.to_nat (N.of_nat (length (xs_hdr d)) + N.of_nat (length b))) with (length (xs_hdr d ++ b)) by (rewrite app_length; lia).
+    rewrite (app_assoc (xs_hdr d)). rewrite xs_skipn_exact. unfold xs_xref_object. cbn [xs_l_xref_id].
+    eexists. rewrite <- !app_assoc. reflexivity.
+  - intros n stm idx H. unfold xs_E in H. apply xs_emit_in in H. exact H.
+Qed.
